@@ -313,6 +313,17 @@ func (r ImportsReplacer) Cleanup(d data.Data, f *ast.File, newNames []string) er
 		taken[n] = struct{}{}
 	}
 
+	// Remember the size of each import declaration so that we can tell
+	// below which of them we deleted imports from.
+	numSpecs := make(map[*ast.GenDecl]int)
+	for _, decl := range f.Decls {
+		d, ok := decl.(*ast.GenDecl)
+		if !ok || d.Tok != token.IMPORT {
+			break
+		}
+		numSpecs[d] = len(d.Specs)
+	}
+
 	// Delete matched imports that are no longer used.
 	for _, imp := range impData.MatchedImports {
 		var importName, pkgName string
@@ -341,15 +352,17 @@ func (r ImportsReplacer) Cleanup(d data.Data, f *ast.File, newNames []string) er
 		}
 	}
 
-	// For each import decl, if the import is the last in the group,
-	// delete the parens around it.
+	// For each import decl that we deleted imports from, if the import
+	// that is left is the last in the group, delete the parens around it.
+	// Groups that we did not touch are left as they are: a group of one
+	// import may hold comments that would lose their place.
 	for _, decl := range f.Decls {
 		d, ok := decl.(*ast.GenDecl)
 		if !ok || d.Tok != token.IMPORT {
 			break
 		}
 
-		if len(d.Specs) == 1 && d.Lparen.IsValid() {
+		if len(d.Specs) == 1 && len(d.Specs) < numSpecs[d] && d.Lparen.IsValid() {
 			d.Lparen = token.NoPos
 			d.Rparen = token.NoPos
 		}
